@@ -205,14 +205,22 @@ func (m *smMachine) step(x *hx, o op) {
 	if e := m.real.IsEmpty(); e != (len(m.model) == 0) {
 		x.failOp("wrong-IsEmpty", "IsEmpty() = %v, model size %d", e, len(m.model))
 	}
-	if am := m.real.AsMap(); !eqMap(am, m.model) {
+	am := m.real.AsMap()
+	if !eqMap(am, m.model) {
 		x.failOp("wrong-AsMap", "AsMap() = %v, model %v", am, m.model)
 	}
-	if ks := m.real.Keys(); !permOf(ks, mapKeys(m.model)) {
+	ks := m.real.Keys()
+	if !permOf(ks, mapKeys(m.model)) {
 		x.failOp("wrong-Keys", "Keys() = %v, model %v", ks, mapKeys(m.model))
 	}
-	if vs := m.real.Values(); !permOf(vs, mapVals(m.model)) {
+	vs := m.real.Values()
+	if !permOf(vs, mapVals(m.model)) {
 		x.failOp("wrong-Values", "Values() = %v, model %v", vs, mapVals(m.model))
+	}
+	if x.ok() { // returned aggregates are caller-owned (held.go)
+		holdMap(x, "AsMap", am, heldGarbage, heldGarbage)
+		holdSlice(x, "Keys", ks, heldGarbage)
+		holdSlice(x, "Values", vs, heldGarbage)
 	}
 	fe := map[int]int{}
 	n := 0
